@@ -18,6 +18,7 @@ Monitors (run-time, result versus independent oracle):
 import itertools
 import json
 import random
+import signal
 
 from .. import common
 from .. import model as M
@@ -30,6 +31,7 @@ EXTRA_HOSTILE = ['\r', '\x00', '\u00aa', '\uff21', '\u200b', '\u2167', '$', '0']
 ID_CHARS = ['a', 'Z', '_', '7']
 LAYOUTS = ['nested-merged', 'nested-reopened', 'multi-id', 'mixed']
 MAX_WITNESSES = 3          # witness records per mechanism and case
+CASE_CPU_SECONDS = 6.0     # a case needs well under a second; a call that spins is a witness
 BAD_ARGUMENTS = [None, 1, 3.14, True, ['a', 1], [None], [['a']], ('a',), {'a'}, {'a': 1}, b'a']
 
 
@@ -119,6 +121,7 @@ class Tally:
     def __init__(self):
         self.violations = []
         self.counts = {}
+        self.doing = None          # (call, facts, case) of the library call in progress
         self._per_mechanism = {}
 
     def count(self, key: str, n: int = 1):
@@ -308,6 +311,7 @@ def check_order(scoping, name, scope, tally: Tally, case: dict):
     ns_name = scoping.NamespaceIds(items=list(name))
     ns_scope = None if scope is None else scoping.NamespaceIds(items=list(scope))
     facts = {'name': name, 'scope': scope, 'expected': expected}
+    tally.doing = ('resolution-order', facts, case)
     try:
         order = scoping.scope_resolution_order(ns_name, ns_scope)
     except Exception as exc:  # pylint: disable=broad-except
@@ -359,9 +363,8 @@ def _queries_of(case: dict):
     return queries, suffixes
 
 
-def eval_lookup(case: dict) -> dict:
+def eval_lookup(case: dict, tally: 'Tally') -> dict:
     scoping, ast_view, json_ast = _lib()
-    tally = Tally()
     decls = [(kind, list(fqn)) for kind, fqn in case['decls']]
     base = {'part': 'lookup', 'decls': [[k, f] for k, f in decls],
             'layout': case.get('layout', 0), 'nest_types': bool(case.get('nest_types'))}
@@ -369,6 +372,7 @@ def eval_lookup(case: dict) -> dict:
         base['alphabet'] = case['alphabet']
     model, table = build_model(decls, base['layout'], base['nest_types'])
     text = json.dumps(M.to_json(model))
+    tally.doing = ('lookup-document-parse', {'declarations': base['decls']}, dict(case))
     with common.quiet():
         fct = json_ast.DznJsonAst(text).process()
     by_id, objects = index_filecontents(fct, table)
@@ -398,6 +402,7 @@ def eval_lookup(case: dict) -> dict:
             ns_name = scoping.NamespaceIds(items=list(name))
             ns_scope = None if scope is None else scoping.NamespaceIds(items=list(scope))
             facts = {'name': name, 'scope': scope, 'scope_argument_omitted': omit}
+            tally.doing = ('find_fqn', facts, one)
             try:
                 found = ast_view.find_fqn(fct, ns_name) if omit else \
                     ast_view.find_fqn(fct, ns_name, ns_scope)
@@ -433,6 +438,7 @@ def eval_lookup(case: dict) -> dict:
             continue
         expected = sorted(t for _, f, t in table if f[-len(suffix):] == suffix)
         ns_suffix = scoping.NamespaceIds(items=list(suffix))
+        tally.doing = ('find_any', {'suffix': suffix}, one)
         try:
             found = ast_view.find_any(fct, ns_suffix)
         except Exception as exc:  # pylint: disable=broad-except
@@ -476,10 +482,9 @@ def eval_lookup(case: dict) -> dict:
     return tally.result(ident, len(decls) >= 2 and outer_hit, sample)
 
 
-def eval_order(case: dict) -> dict:
+def eval_order(case: dict, tally: 'Tally') -> dict:
     """scope_resolution_order on its own (it does not depend on any document)."""
     scoping, _, _ = _lib()
-    tally = Tally()
     queries, _ = _queries_of(dict(case, suffixes=[]))
     for name, scope in queries:
         check_order(scoping, name, scope, tally, {'part': 'order', 'queries': [[name, scope]]})
@@ -499,6 +504,7 @@ def eval_order(case: dict) -> dict:
 def judge_construct(scoping, via: str, thunk, expected, facts: dict, tally: Tally, case: dict):
     """Run one constructing call.  expected = identifier list it must yield, None = it must
     raise NamespaceIdsTypeError.  Returns the value (or None)."""
+    tally.doing = ('namespaceids', dict(facts, via=via), case)
     try:
         value = thunk()
     except scoping.NamespaceIdsTypeError:
@@ -540,6 +546,7 @@ def hostile_document(text: str) -> str:
 
 def check_parser(json_ast, text: str, tally: Tally, case: dict):
     """Whatever the parser hands out for a candidate name must consist of identifiers only."""
+    tally.doing = ('parser', {'string': text}, case)
     try:
         with common.quiet():
             fct = json_ast.DznJsonAst(hostile_document(text)).process()
@@ -564,9 +571,8 @@ def check_parser(json_ast, text: str, tally: Tally, case: dict):
                    {'string': text, 'offence': offence(text), 'got': bad[:3]}, case)
 
 
-def eval_ident(case: dict) -> dict:
+def eval_ident(case: dict, tally: 'Tally') -> dict:
     scoping, _, json_ast = _lib()
-    tally = Tally()
     n_valid = 0
     for pos, text in enumerate(case['strings']):
         one = {'part': 'ident', 'strings': [text], 'parse': True}
@@ -603,11 +609,10 @@ def eval_ident(case: dict) -> dict:
                         0 < n_valid < total, sample)
 
 
-def eval_rejects(case: dict) -> dict:
+def eval_rejects(case: dict, tally: 'Tally') -> dict:
     """Arguments that are neither str, list of str nor NamespaceIds must be refused with
     NamespaceIdsTypeError (documented behaviour of namespaceids_t and of the dataclass)."""
     scoping, _, _ = _lib()
-    tally = Tally()
     for arg in BAD_ARGUMENTS:
         facts = {'argument': repr(arg), 'argument_type': type(arg).__name__}
         tally.count('non_str_arguments_judged')
@@ -642,6 +647,7 @@ def check_notation(scoping, left, right, third, tally: Tally, case: dict):
 
     def trip(step, expected, thunk):
         tally.count('roundtrips')
+        tally.doing = ('notation', {'step': step, 'ids': left}, case)
         try:
             got = thunk()
         except Exception as exc:  # pylint: disable=broad-except
@@ -671,6 +677,7 @@ def check_notation(scoping, left, right, third, tally: Tally, case: dict):
 
     def concat(step, expected, thunk, inputs):
         tally.count('concatenations')
+        tally.doing = ('concat', {'step': step, 'ids': [left, right, third]}, case)
         try:
             got = thunk()
         except Exception as exc:  # pylint: disable=broad-except
@@ -721,9 +728,8 @@ def check_notation(scoping, left, right, third, tally: Tally, case: dict):
                    lambda n=inner: n.fqn, pairs)
 
 
-def eval_notation(case: dict) -> dict:
+def eval_notation(case: dict, tally: 'Tally') -> dict:
     scoping, _, _ = _lib()
-    tally = Tally()
     lists = [list(ids) for ids in case['lists']]
     for pos, left in enumerate(lists):
         right = lists[(pos + 1) % len(lists)]
@@ -877,21 +883,39 @@ def expand(case: dict) -> dict:
     return case
 
 
+class Deadline(BaseException):
+    """The CPU-time budget of one case ran out inside a library call."""
+
+
+def _on_deadline(signum, frame):
+    raise Deadline()
+
+
+EVALUATORS = [('lookup', eval_lookup), ('order', eval_order), ('ident', eval_ident),
+              ('notation', eval_notation), ('rejects', eval_rejects)]
+
+
 def eval_case(case: dict) -> dict:
-    """Evaluate a descriptor or an explicit (replayed) case."""
+    """Evaluate a descriptor or an explicit (replayed) case.  A library call that does not come
+    back within the case's CPU budget (far above what a whole case needs) is a witness too:
+    nothing was returned."""
     case = expand(case)
-    part = case['part']
-    if part.startswith('lookup'):
-        return eval_lookup(case)
-    if part.startswith('order'):
-        return eval_order(case)
-    if part.startswith('ident'):
-        return eval_ident(case)
-    if part.startswith('notation'):
-        return eval_notation(case)
-    if part == 'rejects':
-        return eval_rejects(case)
-    raise ValueError(f'unknown case part {part!r}')
+    func = [f for prefix, f in EVALUATORS if case['part'].startswith(prefix)]
+    if not func:
+        raise ValueError(f'unknown case part {case["part"]!r}')
+    tally = Tally()
+    previous = signal.signal(signal.SIGVTALRM, _on_deadline)
+    signal.setitimer(signal.ITIMER_VIRTUAL, CASE_CPU_SECONDS)
+    try:
+        return func[0](case, tally)
+    except Deadline:
+        call, facts, doing_case = tally.doing or ('harness', {}, case)
+        tally.note(f'{call}:no-result-within-cpu-budget',
+                   dict(facts, cpu_seconds=CASE_CPU_SECONDS), doing_case)
+        return tally.result(case, False, None)
+    finally:
+        signal.setitimer(signal.ITIMER_VIRTUAL, 0)
+        signal.signal(signal.SIGVTALRM, previous)
 
 
 def _worker(descriptor: dict) -> dict:
